@@ -83,10 +83,13 @@ def Style.isPlain (s : Style) : Bool := decide (s = {})
 
 def digitChar (d : Nat) : Char := Char.ofNat (48 + d)
 
-def digits (n : Nat) : List Char :=
-  if n < 10 then [digitChar n] else digits (n / 10) ++ [digitChar (n % 10)]
-termination_by n
-decreasing_by omega
+/-- Decimal digits, most significant first; `fuel` bounds the number of digits (structural
+recursion so that the kernel can evaluate it; `digits` supplies enough fuel). -/
+def digitsAux : Nat → Nat → List Char
+  | 0, n => [digitChar (n % 10)]
+  | fuel + 1, n => if n < 10 then [digitChar n] else digitsAux fuel (n / 10) ++ [digitChar (n % 10)]
+
+def digits (n : Nat) : List Char := digitsAux n n
 
 def joinWith (sep : Char) : List (List Char) → List Char
   | [] => []
